@@ -11,6 +11,7 @@ open Aidl.Actions
 
 inductive VTy
   | tok | loc | str | recovery
+  | dtok      -- a `&str` that is the text of a DIRECTION token (`in`, `out`, `inout`): a refinement of `tok`
   | opt (t : VTy) | optNS (t : VTy) | list (t : VTy) | pair (a b : VTy)
   | package | import_ | ty | dir | ann | arg | method | const | field | enumEl | iel | pel
   | iface | parc | enm | item | aidl
